@@ -50,12 +50,14 @@ struct Counted {
     Counted() : val(0) { g.born(this, "default"); ++g.nDef; }
     Counted(int v) : val(v) { g.born(this, "from-int"); }
     Counted(const Counted& s) {
+        bool srcLive = g.isLive(&s);   // before registering *this: the source may be this very slot
         g.born(this, "copy"); ++g.nCopy;
-        if (!g.isLive(&s)) { g.fault("copy-from-destroyed", "copy-ctor"); val = POISON; } else val = s.val;
+        if (!srcLive) { g.fault("copy-from-destroyed", "copy-ctor"); val = POISON; } else val = s.val;
     }
     Counted(Counted&& s) noexcept {
+        bool srcLive = g.isLive(&s);
         g.born(this, "move"); ++g.nMove;
-        if (!g.isLive(&s)) { g.fault("copy-from-destroyed", "move-ctor"); val = POISON; } else { val = s.val; s.val = MOVED; }
+        if (!srcLive) { g.fault("copy-from-destroyed", "move-ctor"); val = POISON; } else { val = s.val; s.val = MOVED; }
     }
     ~Counted() { g.died(this); val = DEAD; }
     Counted& operator=(const Counted& s) {
@@ -84,8 +86,9 @@ struct MoveOnly {
     MoveOnly(const MoveOnly&) = delete;
     MoveOnly& operator=(const MoveOnly&) = delete;
     MoveOnly(MoveOnly&& s) noexcept {
+        bool srcLive = g.isLive(&s);
         g.born(this, "move"); ++g.nMove;
-        if (!g.isLive(&s)) { g.fault("copy-from-destroyed", "move-ctor"); val = POISON; } else { val = s.val; s.val = MOVED; }
+        if (!srcLive) { g.fault("copy-from-destroyed", "move-ctor"); val = POISON; } else { val = s.val; s.val = MOVED; }
     }
     ~MoveOnly() { g.died(this); val = DEAD; }
     MoveOnly& operator=(MoveOnly&& s) noexcept {
